@@ -92,7 +92,7 @@ func disappeared(before, after rsnap, written string) []string {
 }
 
 func runRecency(r *lib.Run) {
-	n := r.N(72, 800)
+	n := r.N(72, 600)
 	nBackend := min(n/8, 24)
 	pool := lib.NewDirPool("c06")
 	defer pool.Close()
